@@ -86,6 +86,11 @@ def run(ctx):
                 okcmp = a0.has_field(BALANCE, "bank_pk") and a1.has_field(BALANCE, "bank_pk") and a0.params == {3} and a1.params == {2}
     ctx.inst("C16.R1", "sort-order", bool(sb) and okcmp, "sort_balances orders slots by descending bank key (b.bank_pk.cmp(&a.bank_pk))", "", srt.loc(srt.raw["span"]))
 
+    # the sort covers the whole slot array: a sort of a prefix / sub-slice leaves an active balance behind a hole unsorted for good
+    rng = [expr_tree(prog, srt, c.args[0], inline=1) for c in sb]
+    okrng = bool(rng) and all(re.fullmatch(r"p1\.balances", t_) for t_ in rng)
+    ctx.inst("C16.R1", "sort-range", okrng, "sort_balances sorts all 16 slots (the receiver of the sort is the whole balances array, not a sub-slice)", rng, srt.loc(srt.raw["span"]))
+
     # ------------------------------------------------------------ R2 slot creation
     expect_atom(ctx, "C16.R2", "integration-limit", foc, "IntegrationPositionLimitExceeded", "le", Cn("MAX_INTEGRATION_POSITIONS"), lambda p: p.has_call(prog, {"name": "count"}) and p.has_call(prog, {"name": "filter"}),
                 "error_if(integration positions >= MAX_INTEGRATION_POSITIONS)", on_all_paths=False)
